@@ -19,7 +19,7 @@ class Unsupported(Exception):
 
 KEEP_DERIVES = ('Clone', 'Copy', 'PartialEq', 'Eq', 'PartialOrd', 'Ord', 'Default')
 DROP_ATTRS = re.compile(
-    r'^[ \t]*#\[(?:inline[^\]]*|cold|must_use(?:\s*=\s*"[^"]*")?|allow\([^\]]*\)|strum\([^\]]*\)|serde\([^\]]*\)|'
+    r'^[ \t]*#\[(?:inline[^\]]*|cold|must_use(?:\s*=\s*"[^"]*")?|allow\([^\]]*\)|strum\((?:[^\]"]|"[^"]*")*\)|serde\((?:[^\]"]|"[^"]*")*\)|'
     r'enumset\([^\]]*\)|doc[^\]]*|cfg\(not\(tarpaulin_include\)\)|cfg_attr\([^\]]*\)|non_exhaustive|repr\(transparent\))\][ \t]*\n', re.M)
 DERIVE = re.compile(r'#\[derive\(([^\]]*)\)\]')
 
@@ -80,7 +80,7 @@ class Unit:
 
         def derive(m):
             names = [x.strip() for x in m.group(1).replace('\n', ' ').split(',') if x.strip()]
-            keep = [x for x in names if x in KEEP_DERIVES]
+            keep = [x for x in names if x in KEEP_DERIVES or x in getattr(self, '_extra_keep', ())]
             for x in names:
                 if x not in keep:
                     self.dropped['derive:' + x] += 1
@@ -96,13 +96,14 @@ class Unit:
 
     # ---------------------------------------------------------------- item emission
     def emit(self, rel, spec, rules=(), key_prefix='', only=None, skip=(), derive_drop=(), pub_fields=False,
-             pre=None, widen=True, derive_add=(), key_tag=''):
+             pre=None, widen=True, derive_add=(), key_tag='', keep_derives=()):
         """emit the item addressed by `spec` from file `rel`.  For impl/trait items every fn child is
         processed separately (rules + contract splice).  `only`/`skip`: restrict fn children by name.
         `pre`: optional function(text)->text applied to the whole item before anything else (for
         item-level rules; must log itself in self.rules)."""
         src = self.source(rel)
         it = src.find(spec)
+        self._extra_keep = tuple(keep_derives)
         self.item_log.append('%s :: %s (lines %d-%d)' % (rel, spec, it.lines[0], it.lines[1]))
         text = self._emit_item(src, it, rel, rules, key_prefix, only, skip, key_tag)
         if derive_add:
